@@ -135,7 +135,7 @@ func ZZ_C19() {
 		host int
 	}
 	var active []act
-	var spawned *act // an actor made known to the cluster by Cluster.Spawn: kind "b", id "z", on any member
+	var spawned *act // an actor made known to the cluster by Cluster.Spawn: kind "ab" (the name of kind "a" is a prefix of it), id "z", on any member
 	ids := []string{"x", "y"}
 	anyKind := func() bool {
 		for i, n := range nodes {
@@ -168,7 +168,7 @@ func ZZ_C19() {
 				}
 			}
 			{
-				got := n.a.activated["b/z"]
+				got := n.a.activated["ab/z"]
 				if spawned == nil {
 					zzrt.Assert(got == nil, "C19:member-knows-an-actor-that-is-not-active")
 				} else {
@@ -187,14 +187,29 @@ func ZZ_C19() {
 	}
 
 	for step := 0; step < K; step++ {
-		switch zzrt.NondetIntn("op", 5) {
+		switch zzrt.NondetIntn("op", 6) {
+		case 5: // Deactivate for a PID that is not active (never activated, or deactivated before): changes nothing
+			i := zzrt.Choose(N)
+			if !inView[i] {
+				zzrt.Assume(false)
+			}
+			id := ids[zzrt.Choose(len(ids))]
+			for _, a := range active {
+				if a.id == id {
+					zzrt.Assume(false)
+				}
+			}
+			nodes[i].ze.E.Send(nodes[i].c.agentPID, deactivate{pid: actor.NewPID(nodes[i].c.agentPID.Address, "a/"+id)})
+			drain()
+			zzrt.Quiesce()
+			zzrt.Reach("deactivate-of-an-inactive-actor")
 		case 4: // Cluster.Spawn on any member, whatever kinds it registered: spawn locally, tell every member
 			i := zzrt.Choose(N)
 			if !inView[i] || spawned != nil {
 				zzrt.Assume(false)
 			}
 			n := nodes[i]
-			pid := n.ze.E.Spawn(func() actor.Receiver { return &zzActivated{n} }, "b", actor.WithID("z"))
+			pid := n.ze.E.Spawn(func() actor.Receiver { return &zzActivated{n} }, "ab", actor.WithID("z"))
 			for _, m := range members() {
 				n.ze.E.Send(m.PID(), &Activation{PID: pid})
 			}
